@@ -24,12 +24,14 @@ func (self *Compiler) compileIfExpr(node ast.AnalyzedIfExpression) {
 	} else {
 		self.insert(newOneStringInstruction(Opcode_JumpIfFalse, after_label), node.Range)
 	}
-	self.compileBlock(node.ThenBlock, true)
+	// every way through the `if` leaves the same on the stack: its value, or nothing if it is of type `null`
+	want := leavesValue(node)
+	self.compileBlockWant(node.ThenBlock, true, want)
 	self.insert(newOneStringInstruction(Opcode_Jump, after_label), node.Range)
 
 	if node.ElseBlock != nil {
 		self.insert(newOneStringInstruction(Opcode_Label, else_label), node.Range)
-		self.compileBlock(*node.ElseBlock, true)
+		self.compileBlockWant(*node.ElseBlock, true, want)
 	}
 	self.insert(newOneStringInstruction(Opcode_Label, after_label), node.Range)
 }
@@ -57,7 +59,7 @@ func (self *Compiler) compileCallExpr(node ast.AnalyzedCallExpression) {
 	// Push each argument onto the stack in program order (evaluation is left to right).
 	// The last argument ends up on top: callees bind their parameters last to first.
 	for i := 0; i < len(node.Arguments.List); i++ {
-		self.compileExpr(node.Arguments.List[i].Expression)
+		self.compileExprWant(node.Arguments.List[i].Expression, true)
 	}
 
 	if node.Base.Kind() == ast.IdentExpressionKind {
@@ -263,7 +265,7 @@ func (self *Compiler) compileExpr(node ast.AnalyzedExpression) {
 		self.insert(newValueInstruction(Opcode_Cloning_Push, *value.NewValueList(make([]*value.Value, 0))), node.Range)
 
 		for _, element := range node.Values {
-			self.compileExpr(element)
+			self.compileExprWant(element, true)
 			self.insert(newValueInstruction(Opcode_Copy_Push, *value.NewValueInt(2)), node.Range)
 			self.insert(newOneStringInstruction(Opcode_HostCall, LIST_PUSH), node.Range)
 		}
@@ -284,7 +286,7 @@ func (self *Compiler) compileExpr(node ast.AnalyzedExpression) {
 		for _, field := range node.Fields {
 			self.insert(newPrimitiveInstruction(Opcode_Duplicate), node.Range)
 			self.insert(newOneStringInstruction(Opcode_Member, field.Key.Ident()), node.Range)
-			self.compileExpr(field.Expression)
+			self.compileExprWant(field.Expression, true)
 			self.insert(newPrimitiveInstruction(Opcode_Assign), node.Range)
 		}
 	case ast.FunctionLiteralExpressionKind:
@@ -345,10 +347,10 @@ func (self *Compiler) compileExpr(node ast.AnalyzedExpression) {
 
 			if node.Operator != pAst.StdAssignOperatorKind {
 				self.insert(newOneStringInstruction(opCodeGet, name), node.Range)
-				self.compileExpr(node.Rhs)
+				self.compileExprWant(node.Rhs, true)
 				self.arithmeticHelper(node.Operator.IntoInfixOperator(), node.Range)
 			} else {
-				self.compileExpr(node.Rhs)
+				self.compileExprWant(node.Rhs, true)
 			}
 
 			self.insert(newOneStringInstruction(opCodeSet, name), node.Range)
@@ -359,10 +361,10 @@ func (self *Compiler) compileExpr(node ast.AnalyzedExpression) {
 
 			if node.Operator != pAst.StdAssignOperatorKind {
 				self.insert(newPrimitiveInstruction(Opcode_Duplicate), node.Range)
-				self.compileExpr(node.Rhs)
+				self.compileExprWant(node.Rhs, true)
 				self.arithmeticHelper(node.Operator.IntoInfixOperator(), node.Range)
 			} else {
-				self.compileExpr(node.Rhs)
+				self.compileExprWant(node.Rhs, true)
 			}
 
 			self.insert(newPrimitiveInstruction(Opcode_Assign), node.Range)
@@ -419,7 +421,7 @@ func (self *Compiler) compileExpr(node ast.AnalyzedExpression) {
 		node := node.(ast.AnalyzedMatchExpression)
 
 		// push the control value onto the stack
-		self.compileExpr(node.ControlExpression)
+		self.compileExprWant(node.ControlExpression, true)
 
 		branches := make(map[int]string)
 		after_branch := self.mangleLabel("match_after")
@@ -457,13 +459,13 @@ func (self *Compiler) compileExpr(node ast.AnalyzedExpression) {
 			self.insert(newOneStringInstruction(Opcode_Label, branches[i]), node.Range)
 			// Insert a `drop` since a eq_poponce was used
 			self.insert(newPrimitiveInstruction(Opcode_Drop), node.Range)
-			self.compileExpr(option.Action)
+			self.compileExprWant(option.Action, leavesValue(node))
 			self.insert(newOneStringInstruction(Opcode_Jump, after_branch), node.Range)
 		}
 
 		if node.DefaultArmAction != nil {
 			self.insert(newOneStringInstruction(Opcode_Label, default_branch), node.Range)
-			self.compileExpr(*node.DefaultArmAction)
+			self.compileExprWant(*node.DefaultArmAction, leavesValue(node))
 			self.insert(newOneStringInstruction(Opcode_Jump, after_branch), node.Range)
 		}
 
@@ -479,7 +481,7 @@ func (self *Compiler) compileExpr(node ast.AnalyzedExpression) {
 		afterCatchLabel := self.mangleLabel("after_catch_label")
 		self.insert(newTwoStringInstruction(Opcode_SetTryLabel, mangledCurr, exceptionLabel), node.Range)
 		self.tryDepth++
-		self.compileBlock(node.TryBlock, true)
+		self.compileBlockWant(node.TryBlock, true, leavesValue(node))
 		self.tryDepth--
 		self.insert(newPrimitiveInstruction(Opcode_PopTryLabel), node.Range)
 		self.insert(newOneStringInstruction(Opcode_Jump, afterCatchLabel), node.Range)
@@ -491,7 +493,7 @@ func (self *Compiler) compileExpr(node ast.AnalyzedExpression) {
 		mangledExceptionName := self.mangleVar(node.CatchIdent.Ident())
 		self.insert(newOneStringInstruction(Opcode_SetVarImm, mangledExceptionName), node.Range)
 		self.insert(newPrimitiveInstruction(Opcode_PopTryLabel), node.Range)
-		self.compileBlock(node.CatchBlock, false)
+		self.compileBlockWant(node.CatchBlock, false, leavesValue(node))
 		self.insert(newOneStringInstruction(Opcode_Label, afterCatchLabel), node.Range)
 	default:
 		panic("Unreachable")
